@@ -46,6 +46,13 @@ FAMILY_DESC = {
     "oracle": "the REAL `OraclePriceFeedAdapter::try_from_bank` + `get_price_of_type` on fabricated Fixed / Pyth push / Switchboard pull accounts",
     "liq": "the amounts block of `lending_account_liquidate` replayed with the real `calc_value` / `calc_amount` / fee constants, and both functions on their own",
     "bkr": "the REAL `lending_pool_handle_bankruptcy` instruction through real dispatch vs the model of the whole settlement",
+    "ixf": "the REAL `lending_account_deposit / withdraw / borrow / repay / close_balance`, `purge_deleverage_balance`, `lending_pool_close_bank` through real dispatch along generated scenarios vs `Mfi.Ix` (bank, position, tokens bit for bit)",
+    "liqix": "liquidations the REAL `lending_account_liquidate` accepted vs `Ix.liquidate` (both banks, four positions, insurance tokens)",
+    "cfgix": "the REAL `lending_pool_configure_bank` (frozen and unfrozen branch, e-mode re-validation) through real dispatch vs `Admin.ixConfigureBank`",
+    "liteix": "the REAL `configure_bank_interest_only` / `_limits_only` / `migrate_curve` through real dispatch vs the Admin / Interest models",
+    "venue": "the REAL `kamino_deposit` / `kamino_withdraw` against the Kamino stand-in vs `Mfi.Venue`",
+    "xfer": "the REAL `transfer_to_new_account` (both entrypoints) through real dispatch vs `Mfi.Transfer`",
+    "world": "the REAL five user instructions, `lending_account_liquidate` and `lending_pool_handle_bankruptcy` through real dispatch on contexts with any combination of refusal causes vs the whole-instruction model `Mfi.World` (exact error code or whole post-state: slot arrays, books, tokens, window, flags) — §2.5",
 }
 MON_DESC = {
     "IX": "`scen.rs`: generated instruction scenarios (deposit/withdraw/borrow/repay/accrue/collect/close, clock advances, SPL / Token-2022 / fee mints) through real dispatch; after every instruction the predicates of C01 C02 C06 C16 C17 (+ store unchanged on rejection)",
